@@ -129,6 +129,40 @@ def run_scenario(sc, fault, env, res):
                 it.close()
                 after_close_checks(it)
             # iter_drop: nothing; the reference is dropped below
+        elif kind == "iter_reentrant_close":
+            # close() arrives while a frame is being rendered (from inside _render_, as a
+            # callback or another thread would): it fails ("generator already executing");
+            # the iterator must stay usable and a later close must still finalize
+            it = RenderIterator(subj, None, ExactPadding(), sc["loops"], sc["cache"])
+            box = {}
+
+            def hook():
+                if subj.calls == sc["steps"] % 3 + 1 and "done" not in box:
+                    box["done"] = True
+                    try:
+                        it.close()
+                        box["closed"] = True
+                    except ValueError:
+                        box["refused"] = True
+
+            subj.on_render = hook
+            for i in range(sc["steps"] + 2):
+                try:
+                    next(it)
+                except StopIteration:
+                    break
+            if box.get("refused") and not box.get("closed"):
+                try:
+                    it.seek(0)
+                except FinalizedIteratorError:
+                    # half-closed: refuses control operations although next() still works
+                    try:
+                        next(it)
+                        errs.append("after a refused close() the iterator refuses seek() but still yields frames")
+                    except StopIteration:
+                        pass
+            it.close()
+            after_close_checks(it)
         elif kind in ("from_data_own", "from_data_keep"):
             keep = kind == "from_data_keep"
             rd = subj._get_render_data_(iteration=True)
@@ -201,11 +235,11 @@ def run_scenario(sc, fault, env, res):
 
 
 def gen_scenario(rnd):
-    kind = rnd.choice(["str", "render", "draw_still", "draw_anim", "draw_anim", "iter_dunder", "iter_full", "iter_close", "iter_drop", "iter_seek", "from_data_own", "from_data_keep"])
+    kind = rnd.choice(["str", "render", "draw_still", "draw_anim", "draw_anim", "iter_dunder", "iter_full", "iter_close", "iter_drop", "iter_seek", "from_data_own", "from_data_keep", "iter_reentrant_close"])
     sc = dict(kind=kind, size=[rnd.randint(1, 4), rnd.randint(1, 3)], loops=rnd.choice([1, 2, 3]), cache=rnd.choice([False, True, 2, 100]), steps=rnd.randint(0, 8), seeks=[rnd.randint(0, 5) for _ in range(4)])
     if kind in ("str", "render", "draw_still") and rnd.random() < 0.5:
         sc["n"] = 1
-    elif rnd.random() < 0.25 and kind not in ("str", "render", "draw_still"):
+    elif rnd.random() < 0.25 and kind not in ("str", "render", "draw_still", "iter_reentrant_close"):
         sc["indef_len"] = rnd.randint(0, 5)
         sc["n"] = None
     else:
